@@ -22,6 +22,8 @@ PROJECTION = {
     'C17': ('Y', 'R', 'results'),
 }
 
+CORPUS = {'C01': ['D9'], 'C02': ['D2', 'D9'], 'C03': ['D9'], 'C10': ['D1', 'D2', 'D16', 'D23'], 'C17': ['D3']}
+
 RULES = {
     'C01': 'distinct generated DAG cases in which every task of the closure succeeds, the pre-cached entries are sound and the closure has >= 2 tasks',
     'C02': 'distinct cases in which at least one executed task has a dependency',
@@ -53,6 +55,8 @@ def run_single(case):
         viol = {}
         if case.get('ext'):
             return obs, obs, {'C03': dagmon.monitor_ext(case, recs[0])}
+        if case.get('poison'):
+            return obs, obs, {'C03': dagmon.monitor_poison(case, recs[0])}
         for r in recs:
             v, _ = dagmon.monitor(dagmon.phase_case(case, r), r)
             for pid, vs in v.items():
@@ -159,6 +163,13 @@ def run(ctx, pid):
         viol = [v for v in rep2['violations'] if v['property'] == pid]
         rep['evaluations'] += rep2['evaluations']
     out_v = []
+    # regression corpus: the minimised defects that were repaired must stay repaired
+    if CORPUS.get(pid):
+        import repro
+        for r in repro.run_many(CORPUS[pid]):
+            if r.get('violated'):
+                out_v.append(dict(what=f"corpus {r['id']}: {r['detail']}", replay=dict(kind='corpus', id=r['id'])))
+        rep['dist']['corpus_replayed'] = CORPUS[pid]
     if viol and 'top' in viol[0]:
         # found on a real backend: the recorded case is the replay (re-run with: ./check <ID> --replay)
         out_v.append(dict(what=viol[0]['what'], replay=dict(kind='real-dag', case=viol[0]['case'], top=viol[0]['top'],
